@@ -1168,7 +1168,15 @@ class Sym:
                         if (fof and fof.get('final')) or (rec and rec.get('final')):
                             target = fo
             if target is None:
-                self.havoc_out_args(fid, args, st)
+                before = {}
+                for a in args:
+                    o = a[1] if isinstance(a, tuple) and a and a[0] == 'addr' else a
+                    if isinstance(o, tuple) and o and o[0] == 'obj' and o[1] in st.heap:
+                        before[o[1]] = dict(st.heap[o[1]].fields)
+                wrote = self.havoc_out_args(fid, args, st)
+                if not fid.endswith(' const') or wrote:
+                    # a virtual call the evaluator cannot resolve and that may change state: kept as an event
+                    st.effects.append(('vcall', fid, recv, tuple(args), before))
                 return [(st, ('vcall', fid, recv, tuple(args)))]
         f = self.F.fn.get(target)
         if f is None or self.opaque(target) or f.get('ctor'):
@@ -1229,6 +1237,7 @@ class Sym:
                 cur += ch
         if cur.strip():
             ptypes.append(cur.strip())
+        wrote = False
         for a, pt in zip(args, ptypes):
             if not (pt.endswith('&') or pt.endswith('*')) or pt.startswith('const '):
                 continue
@@ -1236,6 +1245,7 @@ class Sym:
             if isinstance(o, tuple) and o and o[0] == 'obj' and o[1] in st.heap:
                 self.havoc_n = getattr(self, 'havoc_n', 0) + 1
                 ob = st.heap[o[1]]
+                wrote = True
                 for k in list(ob.fields):
                     try:
                         _c, fld = self.F.field(ob.cls, k)
@@ -1244,6 +1254,7 @@ class Sym:
                     if fld and fld.get('t', '').rstrip().endswith('&'):
                         continue            # a reference member cannot be reseated
                     ob.fields[k] = ('havoc', self.havoc_n, k)
+        return wrote
 
     def static_class(self, obj_expr):
         if not obj_expr:
